@@ -174,6 +174,11 @@ pub fn upgrade_and_migrate(env: &Env, contract: &Address) -> Result<(), String> 
     Ok(())
 }
 
+/// account-kind (G...) addresses cannot be given a mock account contract by `mock_auths`
+pub fn is_account_kind(a: &Address) -> bool {
+    matches!(ScAddress::try_from(a).unwrap(), ScAddress::Account(_))
+}
+
 pub fn sstr(env: &Env, s: &str) -> SString {
     SString::from_str(env, s)
 }
